@@ -898,18 +898,32 @@ class _ConnectionRecord(ConnectionPoolEntry):
             with util.safe_reraise():
                 pool.logger.debug("Error on connect(): %s", e)
         else:
-            # in SQLAlchemy 1.4 the first_connect event is not used by
-            # the engine, so this will usually not be set
-            if pool.dispatch.first_connect:
-                pool.dispatch.first_connect.for_modify(
-                    pool.dispatch
-                ).exec_once_unless_exception(self.dbapi_connection, self)
+            try:
+                # in SQLAlchemy 1.4 the first_connect event is not used by
+                # the engine, so this will usually not be set
+                if pool.dispatch.first_connect:
+                    pool.dispatch.first_connect.for_modify(
+                        pool.dispatch
+                    ).exec_once_unless_exception(self.dbapi_connection, self)
 
-            # init of the dialect now takes place within the connect
-            # event, so ensure a mutex is used on the first run
-            pool.dispatch.connect.for_modify(
-                pool.dispatch
-            )._exec_w_sync_on_first_run(self.dbapi_connection, self)
+                # init of the dialect now takes place within the connect
+                # event, so ensure a mutex is used on the first run
+                pool.dispatch.connect.for_modify(
+                    pool.dispatch
+                )._exec_w_sync_on_first_run(self.dbapi_connection, self)
+            except BaseException:
+                # a connect / first_connect handler (dialect on_connect,
+                # dialect initialization) failed or, for an asyncio driver,
+                # was cancelled.  This record is about to be discarded by
+                # the caller; don't orphan the new DBAPI connection, which
+                # for an asyncio driver can't be cleaned up by gc.
+                with util.safe_reraise():
+                    connection = self.dbapi_connection
+                    self.dbapi_connection = None
+                    if connection is not None:
+                        if pool.dispatch.close:
+                            pool.dispatch.close(connection, self)
+                        pool._close_connection(connection, terminate=True)
 
 
 def _finalize_fairy(
